@@ -22,9 +22,11 @@ COMPILERS = {"rel": "g++", "asan": "clang++", "tsan": "clang++"}
 # quick/thorough: (multiplier on each sub-check's base case count, number of parallel seeds)
 PROPS = {
     "C12": dict(engine="rc", exe="c12", quick=(1, 6), thorough=(20, 16),
+                fuzz=dict(targets=["fz_construct", "fz_struct"], want=lambda sig: "non-finite" not in sig),
                 assumptions=["'violates the published schema' is judged against the schema emitted by the tree under test, walked by engine/schema_walk.h",
                              "this executable runs without sanitizers; every case runs in its own process so that SIGSEGV/abort are seen; the sanitizer/fuzzing part is run by the same check (see coverage.fuzz)"]),
     "C13": dict(engine="rc", exe="c13", quick=(1, 6), thorough=(20, 16),
+                fuzz=dict(targets=["fz_struct"], want=lambda sig: "non-finite" in sig),
                 assumptions=["world parameters stay inside the physical domain (positive constants, dips in (0,180), thickness > 0); degenerate *parameters* belong to C12",
                              "a query may throw std::exception with a message; it may not crash, hang (120 s per case) or return NaN/Inf"]),
     "C15": dict(engine="rc", exe="c15", quick=(1, 4), thorough=(20, 16),
@@ -162,6 +164,8 @@ def check_rc(pid, cfg, tier, seed):
     regress = sorted(glob.glob(os.path.join(REPLAYS, pid, "*.json"))) + sorted(glob.glob(os.path.join(VERIF, "known", pid, "*.json")))
     n_regress = 0
     for path in regress:
+        if os.path.basename(path).startswith("fuzz-"):
+            continue  # re-run by the fuzz stage
         st, sig, is_known, out = run_replay(exe, path)
         n_regress += 1
         if st == "fail":
@@ -258,6 +262,15 @@ def check_rc(pid, cfg, tier, seed):
                 if k["status"] == "known" and k["signature"] == sig:
                     known_lines[sig] = k["what"]
 
+    # 4b. libFuzzer stage (asan flavour) for the properties that have one
+    fuzz_cov = None
+    if cfg.get("fuzz"):
+        import vffuzz
+        fv, fk, fuzz_cov, fnotes = vffuzz.run_fuzz(pid, cfg["fuzz"]["targets"], tier, seed, cfg["fuzz"]["want"])
+        violations.extend(fv)
+        known_lines.update(fk)
+        notes.extend(fnotes)
+
     # 5. report
     total_eval = sum(m["evaluations"] for m in subs.values())
     all_hashes = set()
@@ -280,6 +293,9 @@ def check_rc(pid, cfg, tier, seed):
                            classes=m["classes"]) for n, m in subs.items()},
         notes=notes,
     )
+    if fuzz_cov:
+        coverage["fuzz"] = fuzz_cov
+        coverage["evaluations"] += sum(fuzz_cov["executions"].values())
     for n, m in subs.items():
         if m["evaluations"] and m["discards"] > 0.25 * m["evaluations"]:
             notes.append("generator health: %s discarded %d of %d cases %s" % (n, m["discards"], m["evaluations"], m.get("exception_samples", [])[:1]))
@@ -318,6 +334,13 @@ def cmd_replay(path):
     d = json.load(open(path))
     pid = d["property"]
     cfg = PROPS[pid]
+    if d.get("engine") == "fuzz":
+        import vffuzz
+        failed, sig, log = vffuzz.replay_file(pid, path)
+        print(("REPLAY-FAIL" if failed else "REPLAY-PASS") + " property=%s target=%s signature=%s" % (pid, d["target"], sig))
+        if failed:
+            print(log[-1500:])
+        return 1 if failed else 0
     if cfg["engine"] == "rc":
         bdir = build("rel", [cfg["exe"]])
         st, sig, known, out = run_replay(os.path.join(bdir, cfg["exe"]), path)
